@@ -48,6 +48,7 @@ func (Scenario) Generate(rng *rand.Rand, focus, tier string) kernel.Plan {
 		"weird_names": kernel.B2I(focus == "C19" || kernel.Chance(rng, 0.25)),
 		"name_off":    rng.Int63n(12),
 		"delay_s":     kernel.B2I(kernel.Chance(rng, 0.2)) * (1 + rng.Int63n(20)),
+		"subproc":     kernel.B2I(focus == "C14" && kernel.Chance(rng, 0.3)) * (1 + rng.Int63n(3)),
 	}
 	w := focusWeights(focus)
 	// swarm: each fault kind is enabled in about half of the runs
